@@ -56,7 +56,7 @@ func init() {
 			Alphabet: poolAlphabet(4, true),
 			Depth:    d,
 		}
-		return &Check{ID: "C02", Scenarios: []*engine.Scenario{sc},
+		return &Check{ID: "C02", Scenarios: []*engine.Scenario{sc, scaleRecycle(d - 3)},
 			Rule: "all histories over {NewEntity, NewEntities(2) with/without callback, Map.NewEntity, NewBatch(2), CopyEntity(i), RemoveEntity(i) for every alive i, RemoveEntities(all / by component), Reset} with <=4 alive entities; after every history: handles pairwise distinct since the last Reset, Alive(h) for every handle ever issued, Stats().Entities, Filter0 count; distinct = distinct model states (alive/dead pattern + components); non-trivial = >=1 alive entity"}
 	}
 }
